@@ -22,14 +22,14 @@
 From CM Require Import Base.Dict Model.Location Spec.LocationSpec Proofs.LocationFacts Generated.Tables.
 Local Open Scope Z_scope.
 
-Definition T_now : ltab := mkltab loc_tol_start loc_tol_end sonar_tuple_widen.
+Definition T_now : ltab := mkltab loc_tol_start loc_tol_end sonar_tuple_widen line_filter_rule.
 
 (** selected <=> some result location reports the node (same lines, both columns within the tabulated tolerance; widened
     for a Sonar result on a Tuple; line containment for DefectDojo) /\ the line filter admits the node *)
 Theorem C06_select_iff : forall rs excl inc n,
   node_is_selected T_now FDefault (Some rs) excl inc n = true <->
   (exists r l, In r rs /\ In l (rlocs r) /\ reports T_now (rcls r) (nkind n) (nspan n) l) /\
-  line_filter excl inc (nspan n) = true.
+  line_filter T_now excl inc (nspan n) = true.
 Proof. exact (select_iff T_now). Qed.
 Print Assumptions C06_select_iff.
 
@@ -41,7 +41,7 @@ Theorem C06_select_iff_fuzzy_call : forall results excl inc n,
      pline (sstart (nspan n)) = pline (lstart l) /\ pline (send (nspan n)) = pline (lend l) /\
      pcol (sstart (nspan n)) <= pcol (lstart l) <= pcol (send (nspan n)) + 1 /\
      pcol (sstart (nspan n)) <= pcol (lend l) <= pcol (send (nspan n)) + 1) /\
-  line_filter excl inc (nspan n) = true.
+  line_filter T_now excl inc (nspan n) = true.
 Proof. exact (select_fuzzy_iff T_now). Qed.
 Print Assumptions C06_select_iff_fuzzy_call.
 
@@ -50,7 +50,7 @@ Theorem C06_select_iff_stmt_line : forall rs excl inc n,
   nkind n = KStmtLine /\
   (exists r l, In r rs /\ In l (rlocs r) /\
      pline (sstart (nspan n)) = pline (lstart l) /\ pline (send (nspan n)) = pline (lend l)) /\
-  line_filter excl inc (nspan n) = true.
+  line_filter T_now excl inc (nspan n) = true.
 Proof. exact (select_mktemp_iff T_now). Qed.
 Print Assumptions C06_select_iff_stmt_line.
 
@@ -99,7 +99,7 @@ Print Assumptions C06_unique_site_stmt_line.
 Theorem C06_subset_exact : forall c cands S rs excl inc,
   discipline T_now c cands = true ->
   Forall2 (site_report T_now c) S rs -> incl S cands ->
-  forall n, In n cands -> line_filter excl inc (nspan n) = true ->
+  forall n, In n cands -> line_filter T_now excl inc (nspan n) = true ->
     (node_is_selected T_now FDefault (Some rs) excl inc n = true <-> In n S).
 Proof. exact (subset_exact T_now). Qed.
 Print Assumptions C06_subset_exact.
@@ -237,7 +237,7 @@ Proof. exact (C06_finding_identity_all sonar_finding_id). Qed.
 Print Assumptions C06_finding_identity.
 
 (** Non-vacuity: three sites at shifted columns (semgrep convention, 1-based columns), the middle one not reported. *)
-Definition x_T := mkltab [-1; 0] [-1; 0] (-1, 1).
+Definition x_T := mkltab [-1; 0] [-1; 0] (-1, 1) ExcludeThenInclude.
 Definition x_n1 := mknode 1 KCall (mkspan (mkpos 3 4) (mkpos 3 19)).
 Definition x_n2 := mknode 2 KCall (mkspan (mkpos 5 15) (mkpos 5 30)).
 Definition x_n3 := mknode 3 KCall (mkspan (mkpos 7 8) (mkpos 7 23)).
